@@ -531,7 +531,15 @@ def r7_cacheability(ctx):
     ctx.floor('C10.R7', 'calls that are handed the diagnostic sink', n, 2)
 
 
+def r8_comparison_covers_everything(ctx):
+    ctx.rule('C10.R8', 'P7: "outdated iff changed" needs the comparison to see the whole content: the digests persist_if_changed compares hash '
+             'everything that was read (`&buffer[..n]` for the n bytes read() returned, in the read loop; no read_exact whose short tail is dropped).')
+    from .persist_common import whole_content_hashed
+    whole_content_hashed(ctx, 'C10.R8')
+
+
 def check(ctx):
+    r8_comparison_covers_everything(ctx)
     r1_hash_order(ctx)
     r2_single_writer(ctx)
     r3_check_mode(ctx)
